@@ -339,3 +339,60 @@ func TmpDir(prefix string) string {
 	}
 	return d
 }
+
+// B is a byte string that marshals to a readable, lossless JSON string:
+// printable ASCII stays as is, everything else (and the backslash) is \xNN.
+type B []byte
+
+func (b B) MarshalJSON() ([]byte, error) {
+	out := make([]byte, 0, len(b)+2)
+	out = append(out, '"')
+	const hexd = "0123456789abcdef"
+	for _, c := range b {
+		if c >= 0x20 && c < 0x7f && c != '\\' && c != '"' {
+			out = append(out, c)
+		} else {
+			out = append(out, '\\', '\\', 'x', hexd[c>>4], hexd[c&15])
+		}
+	}
+	out = append(out, '"')
+	return out, nil
+}
+
+func (b *B) UnmarshalJSON(data []byte) error {
+	var s string
+	if err := json.Unmarshal(data, &s); err != nil {
+		return err
+	}
+	out := make([]byte, 0, len(s))
+	for i := 0; i < len(s); i++ {
+		if s[i] == '\\' && i+3 < len(s) && s[i+1] == 'x' {
+			v, err := strconv.ParseUint(s[i+2:i+4], 16, 8)
+			if err != nil {
+				return err
+			}
+			out = append(out, byte(v))
+			i += 3
+		} else {
+			out = append(out, s[i])
+		}
+	}
+	*b = out
+	return nil
+}
+
+func Bs(bs [][]byte) []B {
+	out := make([]B, len(bs))
+	for i, b := range bs {
+		out[i] = B(b)
+	}
+	return out
+}
+
+func Raw(bs []B) [][]byte {
+	out := make([][]byte, len(bs))
+	for i, b := range bs {
+		out[i] = []byte(b)
+	}
+	return out
+}
